@@ -86,7 +86,14 @@ def op_mode(repo: Path):
                     return 1, args[0].value, [], None
                 if not args:
                     return 1, 1000000, [], None      # CPython's default
-                return 2, 0, [], 'limit_denominator called with a non-literal bound'
+                if len(args) == 1 and isinstance(args[0], (ast.Name, ast.Attribute)):
+                    # a named constant: NAME = <int> at module or class level
+                    name = args[0].id if isinstance(args[0], ast.Name) else args[0].attr
+                    for a in ast.walk(tree):
+                        if isinstance(a, ast.Assign) and len(a.targets) == 1 and isinstance(a.targets[0], ast.Name) \
+                                and a.targets[0].id == name and isinstance(a.value, ast.Constant) and isinstance(a.value.value, int):
+                            return 1, a.value.value, [], None
+                return 2, 0, [], 'limit_denominator called with a bound that is no integer constant'
     # mode 0: chain of val = val.replace('a', 'b')
     if '_replace_float_values' in seen:
         fn = ms['_replace_float_values']
